@@ -145,7 +145,11 @@ def _max_length(fmt, _type):
 
 def _pad_value(fmt, _type, value):
     """Pad the value to the maximum length for the format."""
-    if _type in ('decimal', 'int'):
+    if _type == 'decimal':
+        # the number of decimals (and the currency code) stay in front
+        prefix = 4 if fmt.startswith('N3+') else 1
+        return value[:prefix] + value[prefix:].rjust(_max_length(fmt, _type) - prefix, '0')
+    if _type == 'int':
         return value.rjust(_max_length(fmt, _type), '0')
     return value.ljust(_max_length(fmt, _type))
 
